@@ -412,7 +412,7 @@ pub fn main(ctx: &Ctx) {
     campaign(
         ctx,
         Campaign {
-            total_cases: ctx.pick(1_000, 15_000),
+            total_cases: ctx.pick(1_000, 10_000),
             max_shrink_iters: 100,
             limits: Limits { cpu_s: 30, wall_s: 120, as_bytes: 4 << 30 },
             meta: Meta {
